@@ -51,7 +51,7 @@ UNITS = {
             "next_timeout_burst_and_delay": "after a missed tick Burst schedules the next tick one period after the tick that was due, Delay one period after now, for every (due, now >= due, period) up to 500 years",
         },
         "trusted": ["interval.rs is included textually (include!) so that the private next_timeout is callable; des/src/time/mod.rs verbatim as its parent module",
-                    "Skip (now + period - (now - due) % period) is NOT proved: two 128-bit remainders exceed CBMC's budget here (no verdict in 25 min); it is covered by the bounded replay only",
+                    "Skip (now + period - (now - due) % period) is NOT proved: 128-bit remainders exceed CBMC's budget here (no verdict in 25 min with cadical, 40 min with kissat); it is covered by the bounded replay only",
                     "serde / pin-project-lite linked, not reached"],
     },
     "simtime": {
